@@ -421,9 +421,15 @@ package kv
 //@ requires forall i int :: 0 <= i && i < len(b.Puts) ==> b.Puts[i] != nil
 //@ requires forall i int :: 0 <= i && i < len(b.Deletes) ==> b.Deletes[i] != nil
 //@ requires forall i int :: 0 <= i && i < len(b.DeleteRanges) ==> b.DeleteRanges[i] != nil
-//@ loop 0 invariant res != nil && len(res.Puts) == rangeindex + 1 && len(res.Deletes) == 0 && len(res.DeleteRanges) == 0 && (notifications != nil ==> nbOk(notifications) && notifications.batch.Offset == commitOffset) && (notifications != nil <==> old(d.notificationsEnabled)) && d.versionIdTracker.v >= old(d.versionIdTracker.v) && d.versionIdTracker.v <= old(d.versionIdTracker.v) + rangeindex + 1 && ghost(commits, batch) == old(ghost(commits, batch))
-//@ loop 1 invariant res != nil && len(res.Puts) == len(b.Puts) && len(res.Deletes) == rangeindex + 1 && len(res.DeleteRanges) == 0 && (notifications != nil ==> nbOk(notifications) && notifications.batch.Offset == commitOffset) && (notifications != nil <==> old(d.notificationsEnabled)) && d.versionIdTracker.v >= old(d.versionIdTracker.v) && d.versionIdTracker.v <= old(d.versionIdTracker.v) + len(b.Puts) && ghost(commits, batch) == old(ghost(commits, batch))
-//@ loop 2 invariant res != nil && len(res.Puts) == len(b.Puts) && len(res.Deletes) == len(b.Deletes) && len(res.DeleteRanges) == rangeindex + 1 && (notifications != nil ==> nbOk(notifications) && notifications.batch.Offset == commitOffset) && (notifications != nil <==> old(d.notificationsEnabled)) && d.versionIdTracker.v >= old(d.versionIdTracker.v) && d.versionIdTracker.v <= old(d.versionIdTracker.v) + len(b.Puts) && ghost(commits, batch) == old(ghost(commits, batch))
+//@ loop 0 modifies d.versionIdTracker.v, ghset(present, batch), ghost(seqUpdates, d.sequenceWaiterTracker), ghost(deleteCallbacks, updateOperationCallback), fields(proto.PutRequest), fields(proto.StorageEntry), fields(map[string]*proto.Notification), cells(uint64), cells(int64), cells(int), fresh
+//@ loop 1 modifies d.versionIdTracker.v, ghset(present, batch), ghost(seqUpdates, d.sequenceWaiterTracker), ghost(deleteCallbacks, updateOperationCallback), fields(proto.PutRequest), fields(proto.StorageEntry), fields(map[string]*proto.Notification), cells(uint64), cells(int64), cells(int), fresh
+//@ loop 2 modifies d.versionIdTracker.v, ghset(present, batch), ghost(seqUpdates, d.sequenceWaiterTracker), ghost(deleteCallbacks, updateOperationCallback), fields(proto.PutRequest), fields(proto.StorageEntry), fields(map[string]*proto.Notification), cells(uint64), cells(int64), cells(int), fresh
+//@ loop 0 invariant (res.Puts == nil || fresh(res.Puts)) && (res.Deletes == nil || fresh(res.Deletes)) && (res.DeleteRanges == nil || fresh(res.DeleteRanges))
+//@ loop 0 invariant res != nil && fresh(res) && (notifications == nil || fresh(notifications)) && len(res.Puts) == rangeindex + 1 && len(res.Deletes) == 0 && len(res.DeleteRanges) == 0 && (notifications != nil ==> nbOk(notifications) && notifications.batch.Offset == commitOffset) && (notifications != nil <==> old(d.notificationsEnabled)) && d.versionIdTracker.v >= old(d.versionIdTracker.v) && d.versionIdTracker.v <= old(d.versionIdTracker.v) + rangeindex + 1 && ghost(commits, batch) == old(ghost(commits, batch))
+//@ loop 1 invariant (res.Puts == nil || fresh(res.Puts)) && (res.Deletes == nil || fresh(res.Deletes)) && (res.DeleteRanges == nil || fresh(res.DeleteRanges))
+//@ loop 1 invariant res != nil && fresh(res) && (notifications == nil || fresh(notifications)) && len(res.Puts) == len(b.Puts) && len(res.Deletes) == rangeindex + 1 && len(res.DeleteRanges) == 0 && (notifications != nil ==> nbOk(notifications) && notifications.batch.Offset == commitOffset) && (notifications != nil <==> old(d.notificationsEnabled)) && d.versionIdTracker.v >= old(d.versionIdTracker.v) && d.versionIdTracker.v <= old(d.versionIdTracker.v) + len(b.Puts) && ghost(commits, batch) == old(ghost(commits, batch))
+//@ loop 2 invariant (res.Puts == nil || fresh(res.Puts)) && (res.Deletes == nil || fresh(res.Deletes)) && (res.DeleteRanges == nil || fresh(res.DeleteRanges))
+//@ loop 2 invariant res != nil && fresh(res) && (notifications == nil || fresh(notifications)) && len(res.Puts) == len(b.Puts) && len(res.Deletes) == len(b.Deletes) && len(res.DeleteRanges) == rangeindex + 1 && (notifications != nil ==> nbOk(notifications) && notifications.batch.Offset == commitOffset) && (notifications != nil <==> old(d.notificationsEnabled)) && d.versionIdTracker.v >= old(d.versionIdTracker.v) && d.versionIdTracker.v <= old(d.versionIdTracker.v) + len(b.Puts) && ghost(commits, batch) == old(ghost(commits, batch))
 //@ ensures err == nil ==> res != nil && len(res.Puts) == len(b.Puts) && len(res.Deletes) == len(b.Deletes) && len(res.DeleteRanges) == len(b.DeleteRanges)
 //@ ensures err == nil ==> (nb != nil <==> old(d.notificationsEnabled)) && (nb != nil ==> nbOk(nb) && nb.batch.Offset == commitOffset)
 //@ ensures d.versionIdTracker.v >= old(d.versionIdTracker.v) && d.versionIdTracker.v <= old(d.versionIdTracker.v) + len(b.Puts) && ghost(commits, batch) == old(ghost(commits, batch))
